@@ -572,6 +572,6 @@ def tokenaware_failures(real, head, tail, child, reps, up, dist, shuffle):
     got_head, got_tail = real[:k], real[k:]
     if sorted(got_head) != sorted(head) or (not shuffle and got_head != head):
         out.append(("head", "plan %s must start with the live local replicas %s%s" % (real, head, " in any order" if shuffle else "")))
-    elif got_tail != tail:
+    if got_tail != tail:
         out.append(("tail-order", "after the replicas the plan %s must continue with %s (child order)" % (real, tail)))
     return out
